@@ -60,10 +60,13 @@ func verifConvInput(kind int) (any, bool) {
 			sign := []string{"", "+", "-"}[verifrt.Choose("in.sign", 3)]
 			d1, d2 := verifrt.NondetIntRange("in.d1", 0, 9), verifrt.NondetIntRange("in.d2", 0, 9)
 			return system.String(sign + "21474836" + string([]byte{byte('0' + d1), byte('0' + d2)})), true
-		case 2: // well-formed numbers far outside every range
-			return system.String([]string{"99999999999", "-99999999999", "0000000000001", "1.00000000000000000000000001"}[verifrt.Choose("in.big", 4)]), true
+		case 2: // well-formed numbers far outside every range; literal spellings (with '@') that are not string renderings
+			str := []string{"99999999999", "-99999999999", "0000000000001", "1.00000000000000000000000001", "@2020", "@T10:30", "@2020-01-01T10:00:00Z"}[verifrt.Choose("in.big", 7)]
+			verifrt.Tag("strName", str)
+			return system.String(str), true
 		}
-		return system.String(verifrt.NondetString("in.s", verifrt.Bound(3, 5))), true
+		gs := verifrt.NondetString("in.s", verifrt.Bound(3, 5))
+		return system.String(gs), len(gs) == 0 || gs[0] != '@' // the '@' spellings are the menu's
 	case 4:
 		p := []dtpb.Date_Precision{dtpb.Date_YEAR, dtpb.Date_MONTH, dtpb.Date_DAY}[verifrt.Choose("in.dp", 3)]
 		d, err := system.DateFromProto(&dtpb.Date{ValueUs: 1000000 * int64(verifrt.NondetIntRange("in.date.s", 1704067200, 1704067200+400*86400)), Precision: p})
@@ -177,6 +180,10 @@ func verifConversion(target string) {
 		okc = isBool && bool(b) == converted
 	}
 	verifrt.Assert(okc, "convertsToT-iff-toT-nonempty")
+	if str, isStr := x.(system.String); isStr && converted && len(str) > 0 && (target == "Date" || target == "DateTime" || target == "Time") {
+		// the string renderings of temporal values start with a digit ('@' and '@T' belong to literals in source text)
+		verifrt.Assert(str[0] >= '0' && str[0] <= '9', "only-plain-renderings-convert-to-temporal-values")
+	}
 	verifrt.Assert(err == nil, "toT-never-errors-on-a-single-item")
 	if err != nil {
 		return
